@@ -24,6 +24,8 @@ type Case struct {
 	OneByte     bool             `json:"one_byte,omitempty"`
 	EOFWithData bool             `json:"eof_with_data,omitempty"` // last chunk is returned together with io.EOF
 	Origin      string           `json:"origin,omitempty"`        // how the stream was made
+	Pad         int              `json:"pad,omitempty"`           // the stream continues with this many 'y' bytes ...
+	Tail        engine.Bytes     `json:"tail,omitempty"`          // ... and then these
 }
 
 type chunkReader struct {
@@ -115,8 +117,20 @@ func safeRecv(ch channel.Channel) (res recvResult) {
 }
 
 // run executes the case and compares with the reference decoder.
+// q quotes bytes for a message, the middle of very long ones left out.
+func q(b []byte) string {
+	if len(b) <= 1500 {
+		return engine.Q(b)
+	}
+	return engine.Q(b[:700]) + fmt.Sprintf(" ...(%d bytes)... ", len(b)-900) + engine.Q(b[len(b)-200:])
+}
+
 func run(_ *testing.T, c Case) engine.Verdict {
 	stream := []byte(c.Stream)
+	if c.Pad > 0 {
+		// a long body, spelled compactly: Stream, then Pad times 'y', then Tail
+		stream = append(append(append([]byte(nil), c.Stream...), bytes.Repeat([]byte("y"), c.Pad)...), c.Tail...)
+	}
 	rd := &chunkReader{data: stream, cuts: c.Cuts, oneByte: c.OneByte, eofWithData: c.EOFWithData}
 	ch := makeChannel(c.Framing, rd)
 	want := refframe.Expect(c.Framing, stream)
@@ -139,13 +153,13 @@ func run(_ *testing.T, c Case) engine.Verdict {
 		res := safeRecv(ch)
 		results = append(results, res)
 		if res.panicked != nil {
-			return engine.Failf("C12/"+fname+"/panic", "Recv #%d panicked: %v (stream %s)", i, res.panicked, engine.Q(stream))
+			return engine.Failf("C12/"+fname+"/panic", "Recv #%d panicked: %v (stream %s)", i, res.panicked, q(stream))
 		}
 		// Universal: nothing fabricated, nothing reordered.
 		if len(res.data) > 0 {
 			j := bytes.Index(stream[searchFrom:], res.data)
 			if j < 0 {
-				return engine.Failf("C12/"+fname+"/fabricated", "Recv #%d returned %s which does not occur (in order) in stream %s", i, engine.Q(res.data), engine.Q(stream))
+				return engine.Failf("C12/"+fname+"/fabricated", "Recv #%d returned %s which does not occur (in order) in stream %s", i, q(res.data), q(stream))
 			}
 			searchFrom += j + len(res.data)
 		}
@@ -155,7 +169,7 @@ func run(_ *testing.T, c Case) engine.Verdict {
 				return engine.Failf("C12/"+fname+"/too-many-records", "%d successful Recv calls on a stream of %d bytes", successes, len(stream))
 			}
 			if failedAfterEOF > 0 {
-				return engine.Failf("C12/"+fname+"/recovers-after-end", "Recv #%d succeeded (%s) after the stream was exhausted and a call had failed", i, engine.Q(res.data))
+				return engine.Failf("C12/"+fname+"/recovers-after-end", "Recv #%d succeeded (%s) after the stream was exhausted and a call had failed", i, q(res.data))
 			}
 		} else if failedAfterEOF > 0 || (comparing && i >= finalIdx) ||
 			(!comparing && rd.sawEOF && (errors.Is(res.err, io.EOF) || errors.Is(res.err, io.ErrUnexpectedEOF))) {
@@ -183,36 +197,36 @@ func run(_ *testing.T, c Case) engine.Verdict {
 						break
 					}
 					if !bytes.Equal(res.data, st.Rec) {
-						return engine.Failf("C12/"+fname+"/wrong-record", "Recv #%d: want record %s (%s), got %s; stream %s", i, engine.Q(st.Rec), st.Why, engine.Q(res.data), engine.Q(stream))
+						return engine.Failf("C12/"+fname+"/wrong-record", "Recv #%d: want record %s (%s), got %s; stream %s", i, q(st.Rec), st.Why, q(res.data), q(stream))
 					}
 				case refframe.Exact:
 					if res.err != nil {
-						return engine.Failf("C12/"+fname+"/record-refused", "Recv #%d: want record %s (%s), got error %v (data %s); stream %s", i, engine.Q(st.Rec), st.Why, res.err, engine.Q(res.data), engine.Q(stream))
+						return engine.Failf("C12/"+fname+"/record-refused", "Recv #%d: want record %s (%s), got error %v (data %s); stream %s", i, q(st.Rec), st.Why, res.err, q(res.data), q(stream))
 					}
 					if !bytes.Equal(res.data, st.Rec) {
-						return engine.Failf("C12/"+fname+"/wrong-record", "Recv #%d: want record %s (%s), got %s; stream %s", i, engine.Q(st.Rec), st.Why, engine.Q(res.data), engine.Q(stream))
+						return engine.Failf("C12/"+fname+"/wrong-record", "Recv #%d: want record %s (%s), got %s; stream %s", i, q(st.Rec), st.Why, q(res.data), q(stream))
 					}
 				case refframe.RecWithErr:
 					if res.err == nil {
-						return engine.Failf("C12/"+fname+"/mismatch-not-reported", "Recv #%d: %s must be reported with an error, got nil; stream %s", i, st.Why, engine.Q(stream))
+						return engine.Failf("C12/"+fname+"/mismatch-not-reported", "Recv #%d: %s must be reported with an error, got nil; stream %s", i, st.Why, q(stream))
 					}
 					if _, ok := res.err.(*channel.ContentTypeMismatchError); !ok {
-						return engine.Failf("C12/"+fname+"/mismatch-wrong-error", "Recv #%d: want *ContentTypeMismatchError, got %T %v; stream %s", i, res.err, res.err, engine.Q(stream))
+						return engine.Failf("C12/"+fname+"/mismatch-wrong-error", "Recv #%d: want *ContentTypeMismatchError, got %T %v; stream %s", i, res.err, res.err, q(stream))
 					}
 					if !bytes.Equal(res.data, st.Rec) {
-						return engine.Failf("C12/"+fname+"/wrong-record", "Recv #%d: want record %s with the mismatch error, got %s; stream %s", i, engine.Q(st.Rec), engine.Q(res.data), engine.Q(stream))
+						return engine.Failf("C12/"+fname+"/wrong-record", "Recv #%d: want record %s with the mismatch error, got %s; stream %s", i, q(st.Rec), q(res.data), q(stream))
 					}
 				case refframe.ErrReq:
 					if res.err == nil {
-						return engine.Failf("C12/"+fname+"/error-missing", "Recv #%d: error required (%s), got record %s and nil error; stream %s", i, st.Why, engine.Q(res.data), engine.Q(stream))
+						return engine.Failf("C12/"+fname+"/error-missing", "Recv #%d: error required (%s), got record %s and nil error; stream %s", i, st.Why, q(res.data), q(stream))
 					}
 					if len(res.data) == 0 && len(st.Rec) != 0 && st.Final && res.err == io.EOF {
 						// a cut-off record that vanishes behind a plain io.EOF cannot be
 						// told from a clean end of stream: shortened to nothing, silently
-						return engine.Failf("C12/"+fname+"/final-record-dropped-silently", "Recv #%d: the stream ends inside a record (%s, %d bytes) and Recv returned no data and plain io.EOF, exactly as for a clean end; stream %s", i, st.Why, len(st.Rec), engine.Q(stream))
+						return engine.Failf("C12/"+fname+"/final-record-dropped-silently", "Recv #%d: the stream ends inside a record (%s, %d bytes) and Recv returned no data and plain io.EOF, exactly as for a clean end; stream %s", i, st.Why, len(st.Rec), q(stream))
 					}
 					if len(res.data) != 0 && !bytes.Equal(res.data, st.Rec) {
-						return engine.Failf("C12/"+fname+"/final-record-shortened", "Recv #%d: data returned with the error (%s) is %s, the complete bytes are %s; stream %s", i, st.Why, engine.Q(res.data), engine.Q(st.Rec), engine.Q(stream))
+						return engine.Failf("C12/"+fname+"/final-record-shortened", "Recv #%d: data returned with the error (%s) is %s, the complete bytes are %s; stream %s", i, st.Why, q(res.data), q(st.Rec), q(stream))
 					}
 				}
 			}
@@ -507,6 +521,29 @@ func enumBig(env engine.Env, yield func(Case) bool) {
 				}
 			}
 		}
+		// complete bodies just above the threshold (read in pieces, not into one
+		// pre-allocated buffer), with the expected, another, and no content type,
+		// followed by a short record
+		for _, n := range []int{16777217, 16781312} {
+			for _, ct := range []string{f.Mime, "text/x-other", ""} {
+				idx++
+				if !env.Mine(idx) {
+					continue
+				}
+				var sb bytes.Buffer
+				if ct != "" {
+					fmt.Fprintf(&sb, "Content-Type: %s\r\n", ct)
+				}
+				fmt.Fprintf(&sb, "Content-Length: %d\r\n\r\n", n)
+				tail := "Content-Length: 2\r\n\r\n{}"
+				if f.Mime != "" {
+					tail = "Content-Type: " + f.Mime + "\r\n" + tail
+				}
+				if !yield(Case{Framing: f, Stream: sb.Bytes(), Pad: n, Tail: engine.Bytes(tail), Origin: "big-complete", EOFWithData: ct == ""}) {
+					return
+				}
+			}
+		}
 	}
 }
 
@@ -666,7 +703,7 @@ var parts = []engine.AnyPart{
 		Rule:           "every truncation point of two-record valid streams for each framing; non-trivial as above",
 		EnumExhaustive: "all truncation points of the fixed family of valid two-record streams"},
 	engine.Part[Case]{Name: "big", Run: run, Enum: enumBig,
-		Rule: "Content-Length values at and above the 16 MiB pre-allocation threshold followed by short bodies"},
+		Rule: "Content-Length values at and above the 16 MiB pre-allocation threshold followed by short bodies, and complete bodies of 16 MiB + 1 and + 4097 bytes with the expected, another and no Content-Type followed by a short record"},
 	engine.Part[Case]{Name: "mutated", Run: run, Gen: genMutated,
 		Rule: "valid streams produced like Send does, then 1-3 mutations (bit flip, byte insert/delete, hostile length, header renaming, truncation), random read cuts; non-trivial as above"},
 	engine.Part[Case]{Name: "valid", Run: run, Gen: genValid,
